@@ -713,9 +713,12 @@ def random_sop(ck, rng, n_seq):
                     break
                 real = real2
                 # the old scheduler goes its own way: driven to a stop (or, if already stopped, left alone)
-                for _ in range(steps + 1):
-                    old_opt.last, old_opt.loss = mk(prev), mk(prev)
-                    old_real.step(old_opt.loss)
+                try:
+                    for _ in range(steps + 1):
+                        old_opt.last, old_opt.loss = mk(prev), mk(prev)
+                        old_real.step(old_opt.loss)
+                except Exception as e:  # noqa
+                    ck.violation(monitor, form, entry, "raised:" + type(e).__name__, {"config": kw, "exc": repr(e)[:300], "where": "saved scheduler stepped on its own"})
                 kw = dict(kw, restored_from_state_dict_at=i)
                 ck.mark("random.StopOnPlateau/restored-from-state_dict" + ("/while-running" if ref.cont else "/after-stop"))
             c = int(rng.integers(0, 5))
@@ -996,10 +999,16 @@ def stored_handles(ck, rng):
         for i in range(steps1):
             loss *= 0.5
             o1.last, o1.loss = loss * 2, loss
-            s1.step(loss)
-            r1.step(loss)
+            okc, _ = ck.call("random.StopOnPlateau", "stored-handle", "optim.scheduler.StopOnPlateau.step", lambda: s1.step(loss))
+            okc2, _ = ck.call("random.ReduceToBason", "stored-handle", "utils.ReduceToBason.step", lambda: r1.step(loss))
+            if not (okc and okc2):
+                break
             _ = s2.continual()            # the other controllers are looked at in between
             _ = r2.continual()
+        else:
+            okc = okc2 = True
+        if not (okc and okc2):
+            continue
         w = {"steps_of_first": steps1, "handles_taken_in_order": "first,second" if order else "second,first"}
         ck.count("random.StopOnPlateau", "stored-handle", key=(rep, steps1, order))
         ck.check(g1() is False and g2() is True, "random.StopOnPlateau", "stored-handle", "optim.scheduler.StopOnPlateau.continual",
